@@ -88,6 +88,118 @@ macro_rules! struct_node {
     };
 }
 
+/// implements Node for a generated unsized enum (star_frame_proc/src/unsize/enum_impl.rs).
+/// `$discs` = the generated `<Enum>Discriminants` enum (the descriptor's discriminant values are read from it, not
+/// repeated here); `default:` = the variant carrying `#[default_init]`, listed FIRST in the descriptor (the model's
+/// DefaultInit of `TEnum rw vs` initialises the first listed variant; the order of `vs` means nothing else).
+/// Op codes at an enum node:
+///   1 d rest   `get()`: if the live variant is not the one with discriminant d -> extra [-1]; a unit variant -> extra [-2];
+///              otherwise `rest` is applied to the payload's wrapper
+///   60 d rest  `set_<variant d>(DefaultInit)` (`set_<variant d>()` for a unit variant); for a data variant a non-empty
+///              `rest` is applied to the wrapper the setter returns
+///   70 val     set_from_owned          71 0   set_from_init(DefaultInit)
+#[macro_export]
+macro_rules! enum_node {
+    ($t:ident, $owned:ident, $excl:ident, $discs:ident, repr: $rw:expr, default: $def:ident,
+     data: [$(($dv:ident, $dset:ident, $dty:ty)),*], unit: [$(($uv:ident, $uset:ident)),*]) => {
+        impl Node for $t {
+            fn desc(o: &mut Vec<i128>) {
+                let mut vars: Vec<(i128, Vec<i128>)> = vec![];
+                $( { let mut v = vec![]; <$dty as Node>::desc(&mut v); vars.push(($discs::$dv as i128, v)); } )*
+                $( vars.push(($discs::$uv as i128, vec![4, 0])); )*
+                let def = $discs::$def as i128;
+                vars.sort_by_key(|(d, _)| (*d != def, *d));
+                assert_eq!(std::mem::size_of::<$discs>() as i128, $rw);
+                o.extend([5, $rw, vars.len() as i128]);
+                for (d, v) in vars {
+                    o.push(d);
+                    o.extend(v);
+                }
+            }
+            fn from_val(c: &mut Cur) -> $owned {
+                assert_eq!(c.next(), Some(4));
+                let d = c.next().unwrap();
+                $( if d == $discs::$dv as i128 { return $owned::$dv(<$dty as Node>::from_val(c)); } )*
+                $( if d == $discs::$uv as i128 {
+                    assert_eq!(c.next(), Some(3));
+                    assert_eq!(c.next(), Some(0));
+                    return $owned::$uv;
+                } )*
+                panic!("generator produced an unknown discriminant");
+            }
+            fn to_val(o: &$owned, out: &mut Vec<i128>) {
+                match o {
+                    $( $owned::$dv(inner) => {
+                        out.extend([4, $discs::$dv as i128]);
+                        <$dty as Node>::to_val(inner, out);
+                    } )*
+                    $( $owned::$uv => out.extend([4, $discs::$uv as i128, 3, 0]), )*
+                }
+            }
+            #[allow(unused_variables, unused_mut)]
+            fn apply<'p, 't, P>(w: &mut ExclusiveWrapper<'p, 't, <Self as UnsizedType>::Ptr, P>, c: &mut Cur, out: &mut Vec<i128>) -> Result<()>
+            where
+                ExclusiveWrapper<'p, 't, <Self as UnsizedType>::Ptr, P>: ExclusiveRecurse,
+            {
+                let op = c.next().unwrap();
+                match op {
+                    70 => w.set_from_owned(<Self as Node>::from_val(c)),
+                    71 => {
+                        let kind = c.next().unwrap();
+                        <Self as Node>::set_init(w, kind)
+                    }
+                    1 => {
+                        let d = c.next().unwrap();
+                        match w.get() {
+                            $( $excl::$dv(mut ch) => {
+                                if d == $discs::$dv as i128 {
+                                    <$dty as Node>::apply(&mut ch, c, out)
+                                } else {
+                                    out.push(-1);
+                                    Ok(())
+                                }
+                            } )*
+                            $( $excl::$uv => {
+                                out.push(if d == $discs::$uv as i128 { -2 } else { -1 });
+                                Ok(())
+                            } )*
+                        }
+                    }
+                    60 => {
+                        let d = c.next().unwrap();
+                        $( if d == $discs::$dv as i128 {
+                            let mut ch = w.$dset(DefaultInit)?;
+                            if c.done() {
+                                return Ok(());
+                            }
+                            return <$dty as Node>::apply(&mut ch, c, out);
+                        } )*
+                        $( if d == $discs::$uv as i128 {
+                            return w.$uset();
+                        } )*
+                        unsupported()
+                    }
+                    _ => unsupported(),
+                }
+            }
+            fn scan(p: &<Self as UnsizedType>::Ptr, input: (usize, usize), out: &mut Vec<i128>) -> Result<()> {
+                match &p.data {
+                    $( $t::$dv(inner) => {
+                        out.push($discs::$dv as i128);
+                        out.push($crate::nodes::inside::<$dty>(inner, input));
+                        <$dty as Node>::scan(inner, input, out)
+                    } )*
+                    $( $t::$uv => {
+                        out.push($discs::$uv as i128);
+                        Ok(())
+                    } )*
+                }
+            }
+            $crate::default_only_inits!();
+        }
+    };
+}
+
 // ---- generated structs -------------------------------------------------------------------------
 #[unsized_type(skip_idl)]
 pub struct S1 {
@@ -181,6 +293,52 @@ pub type G2b = G2<bool>;
 pub type G2bOwned = G2Owned<bool>;
 struct_node!(G2b, G2bOwned, sized: [(h1, bool), (h2, PackedValue<u16>)], unsized: [(1, l, List<bool, u8>), (2, m, List<u8>)]);
 
+// ---- generated enums ---------------------------------------------------------------------------
+/// data variants (a plain list, a struct with a sized part) and a unit variant; explicit and implicit discriminants
+#[unsized_type(skip_idl)]
+#[repr(u8)]
+pub enum E1 {
+    #[default_init]
+    A(List<u8>),
+    B(S1) = 3,
+    C,
+}
+enum_node!(E1, E1Owned, E1Exclusive, E1Discriminants, repr: 1, default: A,
+    data: [(A, set_a, List<u8>), (B, set_b, S1)], unit: [(C, set_c)]);
+
+/// the enum BETWEEN two siblings
+#[unsized_type(skip_idl)]
+pub struct S7 {
+    #[unsized_start]
+    pub a: List<u8>,
+    pub e: E1,
+    pub d: List<u8>,
+}
+struct_node!(S7, S7Owned, sized: [], unsized: [(0, a, List<u8>), (1, e, E1), (2, d, List<u8>)]);
+
+/// two-byte discriminants, the #[default_init] variant is a unit variant and not the first one, a list of enums inside
+/// an enum, and a payload that consumes the rest of the buffer
+#[unsized_type(skip_idl)]
+#[repr(u16)]
+pub enum E2 {
+    P(UnsizedList<E1>) = 2,
+    #[default_init]
+    Q,
+    R(RemainingBytes) = 300,
+}
+enum_node!(E2, E2Owned, E2Exclusive, E2Discriminants, repr: 2, default: Q,
+    data: [(P, set_p, UnsizedList<E1>), (R, set_r, RemainingBytes)], unit: [(Q, set_q)]);
+
+/// an enum in tail position after a sized part and a sibling
+#[unsized_type(skip_idl)]
+pub struct S8 {
+    pub n: PackedValue<u16>,
+    #[unsized_start]
+    pub x: List<u8>,
+    pub e: E2,
+}
+struct_node!(S8, S8Owned, sized: [(n, PackedValue<u16>)], unsized: [(1, x, List<u8>), (2, e, E2)]);
+
 // ---- the family ----------------------------------------------------------------------------------
 /// call `$m!(index, Type)` for the selected shape
 #[macro_export]
@@ -208,8 +366,12 @@ macro_rules! with_shape {
             18 => $m!(UnsizedMap<u8, $crate::shapes::S3>),
             19 => $m!($crate::shapes::G1bb),
             20 => $m!($crate::shapes::G2b),
+            21 => $m!($crate::shapes::E1),
+            22 => $m!($crate::shapes::S7),
+            23 => $m!(UnsizedList<$crate::shapes::E1>),
+            24 => $m!($crate::shapes::S8),
             _ => panic!("unknown shape"),
         }
     };
 }
-pub const N_SHAPES: i128 = 21;
+pub const N_SHAPES: i128 = 25;
